@@ -103,7 +103,8 @@ Definition docp (f : Z) (p : params) : Z :=
   | 6 => bz (doc_batch_size (p_ifm_shape p) (p_ifm2_shape p) (p_has_ifm p) (p_has_ifm2 p))
   | 7 => bz (doc_depth_multiplier (p_depth_multiplier p) (p_ifm_shape p) (p_ofm_shape p))
   | 8 => bz (doc_stride_width_no_upper_limit (p_stride_w p) (p_stride_h p) (py_nth (p_ifm_shape p) 2) (py_nth (p_ofm_shape p) 1) (py_nth (p_ofm_shape p) 2))
-  | 9 => bz (doc_stride_range_no_padding (p_stride_w p) (p_padding p))
+  | 9 => bz (constraint_stride_width_no_upper_limit (p_stride_w p) (p_stride_h p) (p_ifm_shape p) (p_ofm_shape p) &&
+             doc_stride_range_no_padding (p_stride_w p) (p_padding p))   (* as in constraint_matches_doc_stride_range_no_padding *)
   | 10 => bz (doc_depthwise_conv_stride (p_stride_w p) (p_stride_h p))
   | 11 => bz (doc_tconv_stride (p_stride_w p) (p_stride_h p) (p_kernel_h p) (py_nth (p_ifm_shape p) 1))
   | 12 => bz (doc_tconv_same (p_stride_w p) (p_stride_h p) (p_padding p) (p_ifm_shape p) (p_ofm_shape p))
